@@ -692,6 +692,123 @@ def oracle_sampler(case):
     return []
 
 
+
+def oracle_options(case):  # noqa: C901, PLR0912
+    """Constructor options (the translated `__init__` methods): the documented defaults, and explicit
+    values - in particular falsy ones (0, 0.0) - are stored unchanged and are the values used."""
+    import mici
+
+    A = mici.adapters
+    bad = []
+    kind = case["kind"]
+    if kind == "da-defaults":
+        ad = A.DualAveragingStepSizeAdapter()
+        want = {"adapt_stat_target": 0.8, "log_step_size_reg_target": None, "log_step_size_reg_coefficient": 0.05,
+                "iter_decay_coeff": 0.75, "iter_offset": 10, "max_init_step_size_iters": 100}
+        for k, w in want.items():
+            g = getattr(ad, k, "<missing>")
+            if (w is None) != (g is None) or (w is not None and not (isinstance(g, (int, float)) and g == w)):
+                bad.append(f"DualAveragingStepSizeAdapter() has {k} = {g!r}, documented default {w!r}")
+        sm = case["smoothed"]
+        try:
+            got = float(ad.log_step_size_reducer(list(sm)))
+            want_r = sum(math.exp(x) for x in sm) / len(sm)
+            if not common.close(got, want_r, rtol=1e-12, atol=0):
+                bad.append(f"default reducer applied to {sm} gives {got!r}, documented default (arithmetic mean of the step sizes) {want_r!r}")
+            a = ad.adapt_stat_func({"accept_stat": 0.375, "n_step": 7, "energy_error": 0.9})
+            if a != 0.375:
+                bad.append(f"default adapt_stat_func returns {a!r} instead of stats['accept_stat']")
+        except Exception as e:  # noqa: BLE001
+            bad.append(f"default reducer / statistic function raised {type(e).__name__}: {e}")
+        # behaviour: one update from a fresh state with the default settings follows the documented constants
+        integ = types.SimpleNamespace(step_size=None)
+        tr = types.SimpleNamespace(integrator=integ, system=None)
+        st = {"iter": 0, "smoothed_log_step_size": 0.0, "adapt_stat_error": 0.0, "log_step_size_reg_target": case["mu"]}
+        ad.update(st, None, {"accept_stat": case["accept"]}, tr)
+        want_log = case["mu"] - ((0.8 - case["accept"]) / (10 + 1)) * 1.0 / 0.05
+        if not common.close(math.log(integ.step_size), want_log, rtol=1e-10, atol=1e-12):
+            bad.append(f"first update with default settings sets step size {integ.step_size!r}, documented defaults "
+                       f"(target 0.8, offset 10, coefficient 0.05) give {math.exp(want_log)!r}")
+    elif kind == "da-explicit":
+        v = case["values"]
+        red = (lambda xs: 0.5) if case.get("custom_reducer") else None
+        fn = (lambda stats: stats["x"]) if case.get("custom_func") else None
+        ad = A.DualAveragingStepSizeAdapter(
+            adapt_stat_target=v["adapt_stat_target"], adapt_stat_func=fn, log_step_size_reg_target=v["log_step_size_reg_target"],
+            log_step_size_reg_coefficient=v["log_step_size_reg_coefficient"], iter_decay_coeff=v["iter_decay_coeff"],
+            iter_offset=v["iter_offset"], max_init_step_size_iters=v["max_init_step_size_iters"], log_step_size_reducer=red)
+        for k, w in v.items():
+            g = getattr(ad, k, "<missing>")
+            if (w is None) != (g is None) or (w is not None and not (type(g) is type(w) and g == w and math.copysign(1, g) == math.copysign(1, w))):
+                bad.append(f"explicit {k}={w!r} is stored as {g!r}")
+        if red is not None and ad.log_step_size_reducer is not red:
+            bad.append("explicit log_step_size_reducer is not the one used")
+        if fn is not None and ad.adapt_stat_func is not fn:
+            bad.append("explicit adapt_stat_func is not the one used")
+    elif kind == "metric-defaults":
+        for cls in (A.OnlineVarianceMetricAdapter, A.OnlineCovarianceMetricAdapter):
+            ad = cls()
+            if not (ad.reg_iter_offset == 5 and ad.reg_scale == 1e-3):
+                bad.append(f"{cls.__name__}() has reg_iter_offset={ad.reg_iter_offset!r}, reg_scale={ad.reg_scale!r}; documented defaults 5, 0.001")
+    elif kind == "metric-explicit":
+        for cls in (A.OnlineVarianceMetricAdapter, A.OnlineCovarianceMetricAdapter):
+            ad = cls(reg_iter_offset=case["off"], reg_scale=case["scale"])
+            if not (type(ad.reg_iter_offset) is int and ad.reg_iter_offset == case["off"] and ad.reg_scale == case["scale"]):
+                bad.append(f"{cls.__name__}(reg_iter_offset={case['off']!r}, reg_scale={case['scale']!r}) stores "
+                           f"{ad.reg_iter_offset!r}, {ad.reg_scale!r}")
+    return bad[:4]
+
+
+def oracle_cache(case):
+    """`finalize` replaces `system.metric`; values cached on the chain states under the previous metric must
+    not survive (the fix 5ac82c4: `chain_state.pos = chain_state.pos`).  A constrained system caches the Gram
+    matrix `J M^-1 J^T` of the constraint Jacobian on the position: after finalize it must equal a from-scratch
+    evaluation, and the redrawn momentum must lie in the co-tangent space under the NEW metric."""
+    import mici
+
+    kind, dim, chains = case["kind"], case["dim"], case["chains"]
+    A = np.array(case["A"], dtype=np.float64).reshape(1, dim)
+    system = mici.systems.DenseConstrainedEuclideanMetricSystem(
+        neg_log_dens=lambda q: 0.5 * float(q @ q), grad_neg_log_dens=lambda q: q,
+        constr=lambda q: A @ q - 1.0, jacob_constr=lambda q: A, dens_wrt_hausdorff=True)
+    ad = _adapter(kind, case["off"], case["scale"])
+    tr = types.SimpleNamespace(system=system, integrator=None)
+    ad_states, ch_states, before = [], [], []
+    for c in chains:
+        cs = _state(c[-1] if c else np.zeros(dim))
+        st = ad.initialize(cs, tr)
+        for x in c:
+            ad.update(st, _state(x), {}, tr)
+        before.append(np.array(system.gram(cs).array, dtype=float))  # warms the cache under the old metric
+        system.h(cs)
+        ad_states.append(st)
+        ch_states.append(cs)
+    rngs = [np.random.default_rng(s) for s in case["seeds"]]
+    try:
+        if case.get("as_dict"):
+            ad.finalize(ad_states[0], ch_states[0], tr, rngs[0])
+        else:
+            ad.finalize(ad_states, ch_states, tr, rngs)
+    except mici.errors.AdaptationError:
+        return []
+    bad = []
+    minv = np.array(system.metric.inv.array, dtype=float)
+    for i, cs in enumerate(ch_states):
+        fresh = mici.states.ChainState(pos=np.array(cs.pos, dtype=float), mom=np.array(cs.mom, dtype=float), dir=1)
+        g_c, g_f = np.array(system.gram(cs).array, dtype=float), np.array(system.gram(fresh).array, dtype=float)
+        if not np.allclose(g_c, g_f, rtol=1e-10, atol=0):
+            bad.append(f"chain {i}: gram matrix cached under the previous metric is still returned after finalize changed "
+                       f"system.metric: cached {g_c.ravel().tolist()} (before finalize {before[i].ravel().tolist()}), "
+                       f"from scratch {g_f.ravel().tolist()}")
+            continue
+        if not common.close(float(system.h(cs)), float(system.h(fresh)), rtol=1e-10, atol=1e-12):
+            bad.append(f"chain {i}: Hamiltonian of the refreshed state {float(system.h(cs))!r} != from-scratch value {float(system.h(fresh))!r}")
+        r = float(np.max(np.abs(A @ minv @ np.array(cs.mom, dtype=float))))
+        if not r <= 1e-9 * max(1.0, float(np.max(np.abs(minv))) * float(np.max(np.abs(cs.mom)))):
+            bad.append(f"chain {i}: refreshed momentum is not in the co-tangent space under the new metric (|J M^-1 p| = {r:.3g})")
+    return bad[:3]
+
+
 ORACLES = {
     "sampler": oracle_sampler,
     "batch": oracle_batch,
@@ -700,6 +817,8 @@ ORACLES = {
     "da": oracle_da,
     "da_finalize": oracle_da_finalize,
     "search": oracle_search,
+    "options": oracle_options,
+    "cache": oracle_cache,
 }
 
 
@@ -1055,6 +1174,110 @@ def run(ctx: common.Ctx):  # noqa: C901, PLR0912, PLR0915
         ctx.case({"sampler": common.stable_hash(case)}, nontrivial=case["n_chain"] > 1)
         ctx.count("oracle:real_sampler")
         check(ctx, "sampler", case)
+
+    # ---- whole methods (translated by pysrc: __init__, initialize, whole finalize, whole search) ----------------
+    # which groups of the new src_* obligations are broken (escalates the matching targeted searches)
+    esc_init = any("init" in b for b in src_broken)
+    esc_fin = any(k in b for b in src_broken for k in ("finalize", "momenta", "metric_is_inverse", "varianceAdapter",
+                                                       "covarianceEntry", "merge"))
+    esc_search = any(k in b for b in src_broken for k in ("search", "find_init"))
+    esc_red = any(k in b for b in src_broken for k in ("reducer", "da_finalize", "da_init"))
+    for name, flag in (("init", esc_init), ("finalize", esc_fin), ("search", esc_search), ("reducers", esc_red)):
+        if flag:
+            ctx.count(f"escalated:{name}")
+    # constructor options: documented defaults, explicit values incl. falsy ones
+    for i in range(8 if esc_init or esc_red else 2):
+        case = {"kind": "da-defaults", "smoothed": [float(x) for x in rng.integers(-24, 9, size=int(rng.integers(2, 6))) / 8.0],
+                "mu": float(rng.integers(-16, 17)) / 8.0, "accept": float(rng.integers(0, 65)) / 64.0}
+        if len(set(case["smoothed"])) < 2:
+            case["smoothed"][0] -= 1.0
+        ctx.case({"options": common.stable_hash(case)}, nontrivial=True)
+        ctx.count("oracle:options:defaults")
+        check(ctx, "options", case)
+    check(ctx, "options", {"kind": "metric-defaults"})
+    for i in range(120 if esc_init else 30):
+        falsy = i % 3 == 0
+        v = {"adapt_stat_target": 0.0 if falsy and i % 2 else float(rng.choice([0.8, 0.65, 0.5])),
+             "log_step_size_reg_target": [0.0, -0.0, None, 1.5, -2.25, 0.0][i % 6],
+             "log_step_size_reg_coefficient": float(rng.choice([0.05, 0.5, 1.0])),
+             "iter_decay_coeff": float(rng.choice([0.75, 1.0, 0.51])),
+             "iter_offset": 0 if falsy else int(rng.choice([10, 1, 25])),
+             "max_init_step_size_iters": 0 if falsy and i % 2 == 0 else int(rng.choice([100, 1, 7]))}
+        case = {"kind": "da-explicit", "values": v, "custom_reducer": bool(i % 2), "custom_func": bool(i % 4 < 2)}
+        ctx.case({"options": common.stable_hash(case)}, nontrivial=falsy)
+        ctx.count("oracle:options:explicit" + (":falsy" if falsy else ""))
+        check(ctx, "options", case)
+        check(ctx, "options", {"kind": "metric-explicit", "off": 0 if falsy else int(rng.integers(1, 60)),
+                               "scale": 0.0 if falsy and i % 2 else float(rng.choice([1e-3, 0.25, 2.0]))})
+    # explicit falsy regularisation targets through the real `initialize` (seed C17-3) when initialize is suspect
+    if esc_init:
+        for i in range(300):
+            sc = rand_script()
+            case = {"script": sc, "max_iters": int(rng.choice([3, 5, 8, 12, 20, 40])), "h_init": float(rng.integers(-8, 9)) / 2.0,
+                    "h_init_nan": False, "via_initialize": True, "reg_target": [0.0, -0.0, 0.0, None][i % 4]}
+            ctx.count("search:targeted_falsy_reg_target")
+            check(ctx, "search", case)
+    # cached values after the metric changed (constrained system, Gram matrix) + single chain / zero-sample chains
+    for i in range(_n(ctx, 40, 300) * (4 if esc_fin else 1)):
+        kind = "var" if i % 2 == 0 else "cov"
+        dim = int(rng.integers(2, 5))
+        n = int(rng.integers(dim + 3, 30))
+        data = dyadic(rng, (n, dim))
+        style = i % 4
+        if style == 0:
+            sizes = [n]
+        elif style == 1:  # zero-sample chains around the data
+            sizes = [n, 0] if i % 8 < 4 else [n - 2, 0, 2]
+        else:
+            sizes = random_partition(rng, n, allow_empty=True)
+            if nan_expected(split(data, sizes)):
+                sizes = [n]
+        Arow = [1.0] + [float(x) for x in rng.integers(-4, 5, size=dim - 1) / 4.0]
+        case = {"kind": kind, "dim": dim, "chains": split(data, sizes), "A": Arow, "off": int(rng.choice([1, 5])), "scale": 1e-3,
+                "seeds": [int(s) for s in rng.integers(0, 2 ** 31, size=len(sizes))], "as_dict": style == 0 and i % 8 == 0}
+        ctx.case({"cache": common.stable_hash(case)}, nontrivial=len(sizes) > 1)
+        ctx.count("oracle:cache" + (":single" if len(sizes) == 1 else ":zero_sample_chain" if 0 in sizes else ""))
+        check(ctx, "cache", case)
+    if esc_fin:
+        # boundary of the sample-count test, single chains as dict and as list, zero-sample chains
+        for i in range(400):
+            kind = "var" if i % 2 == 0 else "cov"
+            dim = int(rng.integers(1, 4))
+            n = [2, 2, 3, 1, 2, dim + 3][i % 6]
+            off = int(rng.choice([1, 5, 10]))
+            data = dyadic(rng, (n, dim))
+            sizes = [[n], [n, 0], [1, n - 1] if n >= 2 else [n], [n - 1, 0, 1] if n >= 2 else [0, n]][i % 4]
+            ch = split(data, sizes)
+            if nan_expected(ch):
+                continue
+            case = {"kind": kind, "off": off, "scale": float(rng.choice([1e-3, 0.5])), "chains": ch, "dim": dim,
+                    "as_dict": len(sizes) == 1 and i % 8 < 4}
+            ctx.count("batch:targeted_boundary")
+            check(ctx, "batch", case)
+            check(ctx, "momenta", {**case, "seeds": [int(s) for s in rng.integers(0, 2 ** 31, size=len(sizes))]})
+    if esc_search:
+        # the loop bound / the initial step size: crossings exactly at the limit of what max_iters passes reach
+        for i in range(400):
+            k = int(rng.integers(1, 9))
+            up = i % 2 == 0
+            lo = -12
+            toks = []
+            for e in range(lo, 13):
+                if up:
+                    toks.append(repr(0.25) if e < k else str(rng.choice(["3.0", "E", "N", "I", "0.75", "1.0"])))
+                else:
+                    toks.append(repr(0.25) if e <= -k else str(rng.choice(["3.0", "E", "N", "I", "0.75", "1.0"])))
+            sc = {"lo": lo, "tokens": toks, "default": "0.25" if not up else "3.0"}
+            for mi in (k - 1, k, k + 1, k + 2):
+                if mi < 0:
+                    continue
+                case = {"script": sc, "max_iters": mi, "h_init": 0.0, "h_init_nan": bool(i % 50 == 7), "via_initialize": i % 4 == 1,
+                        "reg_target": None}
+                ctx.count("search:targeted_loop_bound")
+                check(ctx, "search", case)
+    if esc_red:
+        for i in range(200):
+            check(ctx, "da_finalize", {"smoothed": rng.normal(size=int(rng.integers(1, 7))).tolist()})
     ctx.extra.pop("_checked", None)
 
 
@@ -1121,3 +1344,11 @@ LEVEL_NOTE += (
     ' Translator conventions (trusted, validated entry by entry by the correspondence): NumPy arrays are one component / one ordered pair of components, v[None,:] * w[:,None] and np.outer are the (a,b) entry, x**2 = x*x, in-place updates are required where the caller relies on them, reg_iter_offset is an integer (None outside the model), the statements around the translated arithmetic (loop headers, metric assignment, momentum refresh) are checked syntactically and fail closed.'
 )
 TECHNIQUE += ' + source-to-Lean translation of the adapter arithmetic with generated = model equalities re-proved on every run'
+
+# --- whole-method translation (round 3) ---
+LEVEL_TEXT += (
+    ' WHOLE METHODS (same translator, same module): DualAveragingStepSizeAdapter.__init__ (stored attributes, exact defaults, default = arithmetic-mean reducer: src_da_init_eq_model, src_da_init_default_reducer), initialize (state dictionary, `is None` selection of the regularisation target, arguments of the search call: src_da_initialize_eq_model; src_initialize_reg_target: an explicit target - any value, in particular 0 - is stored unchanged, None gives log(10 * init step size)), the complete _find_and_set_init_step_size (NaN guard, initial step size 1, threshold log 2, loop bound, exhausted-loop error around the generated loop body = findInitStepSize: src_find_init_step_size_eq_model, with src_search_error, src_search_succeeds, src_search_first_crossing transported), the three reducers (src_reducers_eq_model, src_min_reducer_eq_model incl. its specification, src_da_finalize, src_da_reducers), __init__/initialize of both metric adapters (src_metric_init_eq_model) and their complete finalize - single state or loop over the chains in order, AdaptationError for < 2 samples, normalisation, regularisation, matrix class and .inv of the new metric, and per chain in order: position re-assigned (cached values cleared) then momentum redrawn with that chain\'s generator under the NEW metric (src_var_merge_eq_model, src_var_finalize_whole_eq_model, src_cov_finalize_whole_eq_model); end to end for the generated code: src_varianceAdapter_eq, src_covarianceEntry_eq, src_metric_is_inverse, src_momenta_refreshed.'
+)
+LEVEL_NOTE += (
+    ' Whole-method conventions (trusted, see the extractor docstring): loops are fixed combinators (Lemmas/PySrcAdaptersBase.lean) applied to the generated bodies; the step size of the search is its exponent of 2; optional settings are Option values that may only be consumed under `is None`; `Cls(est).inv` is a record (class, inverse, entry) handed to an abstract matrix constructor; `chain_state.pos = chain_state.pos` is an abstract cache-clearing action and sample_momentum an abstract function of (metric in force, state, generator) - that re-assigning the position really clears the cached values is C09/C18 and is exercised here by the constrained-system Gram-matrix oracle; chain_states / rngs are one list of pairs (equal lengths).'
+)
